@@ -460,6 +460,10 @@ def _v1_fold(L, repo, h1, SMSG, MSG):
     for bt, m in sorted(by_bt.items())[:2]:
         wit.append(("444 bits with the bit pattern of %s in them" % m.name, place(bytearray(444), m), (0, 0)))
     wit.append(("296 bits", bytearray(296), (0, 0)))
+    # a truncated / empty burst (no modulation has that length): whatever is recorded for it, the method completes - the
+    # message is refused by validation afterwards, an exception here would leave the clock thread
+    wit.append(("10 bits", bytearray(10), (0, 0)))
+    wit.append(("0 bits", bytearray(0), (0, 0)))
     rows = []
     try:
         for title, burst, (tsc, tset) in wit:
